@@ -587,7 +587,14 @@ func (s *Session) hostInfoFromMap(row map[string]interface{}, host *HostInfo) (*
 		// Not sure what the port field will be called until the JIRA issue is complete
 	}
 
-	ip, port := s.cfg.translateAddressPort(host.ConnectAddress(), host.port)
+	host.mu.RLock()
+	addr, _ := host.connectAddressLocked()
+	host.mu.RUnlock()
+	if !validIpAddr(addr) {
+		// HostInfo.ConnectAddress would panic
+		return nil, fmt.Errorf("gocql: no valid connect address in host info row: %v", host)
+	}
+	ip, port := s.cfg.translateAddressPort(addr, host.port)
 	host.connectAddress = ip
 	host.port = port
 
